@@ -14,17 +14,20 @@ import (
 	"time"
 
 	"github.com/libp2p/go-libp2p-kad-dht/internal/verifsim"
+	pb "github.com/libp2p/go-libp2p-kad-dht/pb"
 	record "github.com/libp2p/go-libp2p-record"
 	"github.com/libp2p/go-libp2p/core/routing"
 	"pgregory.net/rapid"
 )
 
 type valSc struct {
-	Lk       lkSc `json:"lookup"`
-	Quorum   int  `json:"quorum"`
-	Local    int  `json:"local"` // 0 none; 1..9 valid local record of that rank; -5 local record that has expired by the validator's rule
-	UseGet   bool `json:"use_get"`
-	CancelMs int  `json:"cancel_ms,omitempty"`
+	Lk         lkSc `json:"lookup"`
+	Quorum     int  `json:"quorum"`
+	Local      int  `json:"local"` // 0 none; 1..9 valid local record of that rank; -5 local record that has expired by the validator's rule
+	UseGet     bool `json:"use_get"`
+	CancelMs   int  `json:"cancel_ms,omitempty"`
+	Offline    bool `json:"offline,omitempty"`      // the routing.Offline option is passed
+	SlowReadMs int  `json:"slow_read_ms,omitempty"` // SearchValue: the consumer pauses this long after every value it reads
 }
 
 type emitted struct {
@@ -63,16 +66,21 @@ func runValueSearch(t *testing.T, sc *valSc) (vals []emitted, getRes []byte, get
 				cancel()
 			}()
 		}
+		opts := []routing.Option{Quorum(sc.Quorum)}
+		if sc.Offline {
+			opts = append(opts, routing.Offline)
+		}
 		if sc.UseGet {
-			getRes, getErr = env.d.GetValue(ctx, key, Quorum(sc.Quorum))
+			getRes, getErr = env.d.GetValue(ctx, key, opts...)
 			closedAt = env.sim.Now()
 		} else {
-			ch, err := env.d.SearchValue(ctx, key, Quorum(sc.Quorum))
+			ch, err := env.d.SearchValue(ctx, key, opts...)
 			if err != nil {
 				getErr = err
 			} else {
 				for v := range ch {
 					vals = append(vals, emitted{env.sim.Now(), v})
+					time.Sleep(time.Duration(sc.SlowReadMs) * time.Millisecond)
 				}
 			}
 			closedAt = env.sim.Now()
@@ -88,8 +96,8 @@ func TestVerif_C04_Values(t *testing.T) {
 	verifsim.RunCheck(t, verifsim.Check[valSc]{
 		Property: "C04", Part: "values",
 		Rule: "rapid: C01-style networks of 1-25 peers whose GET_VALUE answers carry a drawn assignment of {valid record of rank 1-3, invalid value, record filed under another key whose value would be " +
-			"the best for the requested key, empty value, malformed value, no record}; local storage empty / valid rank / a record that has since expired by the validator's rule; quorum 0/1/2/16; " +
-			"SearchValue (stream) or GetValue; optional cancellation; oracle = every yielded value validates now, the stream is strictly improving under Select, the final value is at least as good as " +
+			"the best for the requested key, empty value, malformed value, no record}; local storage empty / valid rank / a record that has since expired by the validator's rule; quorum 0/1/2/16, with or without the Offline option; " +
+			"SearchValue (stream; the consumer reads at once or pauses 1-3000 ms after every value) or GetValue; optional cancellation; oracle = every yielded value validates now, the stream is strictly improving under Select, the final value is at least as good as " +
 			"every valid value of local storage and of every answer delivered before the stream ended, nothing valid supplied => not-found; non-trivial = valid and invalid/mis-keyed records in the same case, or an invalid local record",
 		Gen: func(t *rapid.T) valSc {
 			var sc valSc
@@ -120,6 +128,10 @@ func TestVerif_C04_Values(t *testing.T) {
 			if rapid.IntRange(0, 5).Draw(t, "cancel") == 0 {
 				sc.CancelMs = rapid.IntRange(1, 8000).Draw(t, "cancelMs")
 			}
+			sc.Offline = verifsim.Chance(t, "offline", 15)
+			if !sc.UseGet && verifsim.Chance(t, "slowRead", 30) {
+				sc.SlowReadMs = rapid.SampledFrom([]int{1, 40, 700, 3000}).Draw(t, "slowReadMs")
+			}
 			return sc
 		},
 		Run: func(t *testing.T, sc valSc) (res verifsim.Result) {
@@ -145,6 +157,22 @@ func TestVerif_C04_Values(t *testing.T) {
 				supplied = append(supplied, simValue(sc.Local, strings.TrimPrefix(key, "/v/"), "local"))
 			}
 			anyDelivered := false
+			// A consumer that pauses between reads sees the channel close later than the search ended. Without a quorum the search
+			// ends with the lookup, i.e. with the last GET_VALUE exchange (answered, failed or cut); with a quorum it ends when the
+			// quorum is reached, which a pausing consumer cannot observe: the final-value clause is then left to the cases with an
+			// attentive consumer.
+			if sc.SlowReadMs > 0 {
+				var lastExchange time.Duration
+				for _, e := range obs.Log {
+					if e.Kind == "request" && e.Type == pb.Message_GET_VALUE && e.End > lastExchange {
+						lastExchange = e.End
+					}
+				}
+				if lastExchange > 0 && lastExchange < closedAt {
+					closedAt = lastExchange
+				}
+			}
+			skipFinal := sc.SlowReadMs > 0 && sc.Quorum > 0 && !sc.Offline
 			atEnd := 0
 			for _, e := range obs.Log {
 				if e.End == closedAt {
@@ -194,7 +222,7 @@ func TestVerif_C04_Values(t *testing.T) {
 			if len(vals) > 0 {
 				last := vals[len(vals)-1].Val
 				for _, sv := range supplied {
-					if simBetter(sv, last) && !cancelled {
+					if simBetter(sv, last) && !cancelled && !skipFinal {
 						res.Fail("final-best", "C04/final/not-best", "final value %q although %q was supplied before the search ended (quorum %d)", last, sv, sc.Quorum)
 						break
 					}
